@@ -28,6 +28,7 @@ type harness struct {
 	tier     string
 	thriftgo string
 	plug     string
+	variants map[string]string // thriftgo version recorded in the build info -> c11plugin binary
 	nprog    int
 }
 
